@@ -109,6 +109,19 @@ def heapHistory (repaired : Bool) (ops : List String) : Option String := do
     outs := outs ++ [dumpHeap h]
   pure (" # ".intercalate outs)
 
+/-! numeric kernels at Rat / Float -/
+instance : Zero Float := ⟨0.0⟩
+instance : NatCast Float := ⟨Float.ofNat⟩
+
+def matFn (rows : List (List Rat)) : Nat → Nat → Rat := fun i j => (rows.getD i []).getD j 0
+def vecFn (v : List Rat) : Nat → Rat := fun i => v.getD i 0
+def parseFloat? (s : String) : Option Float :=
+  -- exact: num/den with den a power of two, or an integer
+  match s.splitOn "/" with
+  | [a] => (a.toInt?).map Float.ofInt
+  | [a, b] => do let n ← a.toInt?; let d ← b.toNat?; pure (Float.ofInt n / Float.ofNat d)
+  | _ => none
+
 def bad : String := "bad-op"
 
 def opt (o : Option String) : String := o.getD bad
@@ -235,6 +248,67 @@ def step (line : String) : String :=
               (MainLoop.complete (fun k => 100 + k) K sched))
   -- ---------------------------------------------------------------- C13 / C19
   | "heap" :: rep :: ops => (heapHistory (rep == "1") ops).getD bad
+  -- ---------------------------------------------------------------- numeric (C02 C03 C05 C12 C17 C18)
+  | ["softthr", a, b, c] => opt do
+      let a ← parseRat? a; let b ← parseRat? b; let c ← parseRat? c
+      pure (showRat (Numeric.softThreshold a b c))
+  | ["lambdasum", kind, lam, b, r, c, N, W] => opt do
+      let b ← parseNat? b; let r ← parseNat? r; let c ← parseNat? c
+      let N ← parseNat? N; let W ← parseNat? W
+      if kind == "scalar" then do
+        let v ← parseRat? lam
+        pure (showRat (Numeric.lambdaSum (.scalar v) b r c N W))
+      else do
+        let M ← parseRatss? lam
+        pure (showRat (Numeric.lambdaSum (.matrix (matFn M)) b r c N W))
+  | ["zupdate", rho, kind, lam, N, W, u, x] => opt do
+      let rho ← parseRat? rho; let N ← parseNat? N; let W ← parseNat? W
+      let u ← parseRats? u; let x ← parseRats? x
+      let l ← (if kind == "scalar" then (parseRat? lam).map Numeric.Lambda.scalar
+               else (parseRatss? lam).map (fun M => Numeric.Lambda.matrix (matFn M)))
+      pure (showRats (Numeric.zUpdate rho l N W u x))
+  | ["uupdate", u, x, z] => opt do
+      let u ← parseRats? u; let x ← parseRats? x; let z ← parseRats? z
+      pure (showRats (Numeric.uUpdate u x z))
+  | ["stoprule", args] => opt do
+      let a ← parseRats? args
+      match a with
+      | [sq, at_, rt, nx, nz, nu, rp, rd] =>
+        let slack := mkRat Constants.convSlackNum Constants.convSlackDen
+        pure (toString (Numeric.stopRule sq at_ rt slack nx nz nu rp rd))
+      | _ => none
+  | ["floor", eps, xs] => opt do
+      let eps ← parseRat? eps; let xs ← parseRats? xs
+      pure (showRats (xs.map (Numeric.floorFilter eps)))
+  | ["eigfloat", rho, d] => opt do
+      let rho ← parseFloat? rho; let d ← parseFloat? d
+      let p := Numeric.eigPinned Float.sqrt rho d
+      let r := Numeric.eigRepaired Float.sqrt rho d
+      pure (s!"{decide (p > 0.0)} {decide (r > 0.0)} {p.toBits.toNat} {r.toBits.toNat}")
+  | ["quadform", n, theta, d] => opt do
+      let n ← parseNat? n; let th ← parseRatss? theta; let d ← parseRats? d
+      pure (showRat (Numeric.quadForm n (matFn th) (vecFn d)))
+  | ["loglik", n, logdet, nwlog, theta, mu, x] => opt do
+      let n ← parseNat? n; let ld ← parseRat? logdet; let nl ← parseRat? nwlog
+      let th ← parseRatss? theta; let mu ← parseRats? mu; let x ← parseRats? x
+      pure (showRat (Numeric.logLik n (1/2) ld nl (matFn th) (vecFn mu) (vecFn x)))
+  | ["clusterstats", biased, d, members, data] => opt do
+      let d ← parseNat? d; let mem ← parseNats? members; let rows ← parseRatss? data
+      let f := matFn rows
+      let mean := (List.range d).map (Numeric.clusterMean f mem)
+      let cov := (List.range d).map (fun a => (List.range d).map (fun b =>
+        Numeric.clusterCov f mem (biased == "1") a b))
+      pure (showRats mean ++ " " ++ showRatss cov)
+  | ["ch", T, K, d, members, means, data] => opt do
+      let T ← parseNat? T; let K ← parseNat? K; let d ← parseNat? d
+      let mem ← parseNatss? members; let means ← parseRatss? means; let rows ← parseRatss? data
+      let memF : Nat → List Nat := fun k => mem.getD k []
+      let B0 := Numeric.between K d (fun k => (memF k).length) (matFn means) (fun _ => Numeric.scalarMean T d (matFn rows))
+      let B1 := Numeric.between K d (fun k => (memF k).length) (matFn means) (Numeric.centroid T (matFn rows))
+      let Wd := Numeric.within K d memF (matFn means) (matFn rows)
+      pure (showRat (Numeric.chPinned T K d memF (matFn means) (matFn rows)) ++ " "
+            ++ showRat (Numeric.chSpec T K d memF (matFn means) (matFn rows)) ++ " "
+            ++ showRat B0 ++ " " ++ showRat B1 ++ " " ++ showRat Wd)
   -- ---------------------------------------------------------------- C08
   | ["repop", K, m, spreads, order, recorded, labels] => opt do
       let K ← parseNat? K; let m ← parseNat? m
